@@ -12,10 +12,16 @@
        (C10_cut_line_feed: in INITIAL and in the comment conditions no match looks past a line feed; C10_cut_quote: in
        STRING and INCLUDE none looks past a double quote), on the append lemma (C10_append) and on the independence of
        token values from the bookkeeping fields of the scanner state (C10_bookkeeping_irrelevant).
-   Not proved: nested directives inside c (the same argument by induction on the include depth), include functions
-   returning several files, directives followed by more text on the same line (there b_bol genuinely differs), and the
-   lifting through the parser (the configuration depends on the token values except for the recorded lines and files,
-   which do differ between an include and a splice: that is the provenance clause).  Those cases are compared on
+   (c) THROUGH THE PARSER AND FOR NESTED INCLUDES (SpliceRead.v, SpliceNest.v): the parser's answer and the tree it builds do
+       not depend on the lines and files of the tokens except for the positions it records (C10_parser_position_irrelevant,
+       mutual induction over the parsing functions), so config_read of the including text and of the spliced text have the
+       same outcome and the same configuration - settings, order, names, types, values, formats - up to the recorded
+       source lines and files, which are the provenance clause (C10_splice_read); and for include forests of any shape
+       within the depth limit (every directive alone on its line, resolving to one existing file whose text is complete),
+       reading the top file equals reading the fully flattened text (C10_flatten_tokens, C10_flatten_read; induction on the
+       depth budget and on the forest).
+   Not proved: include functions returning several files, directives followed by more text on the same line (there b_bol
+   genuinely differs), error outcomes (missing targets, depth overflow) under flattening.  Those cases are compared on
    every run on generated include forests against config_read_string of the spliced text, on the model and on the real
    library.
    Known finding F13 (kept, see known_findings.json): when an include function returns several paths and a
@@ -24,7 +30,7 @@
    C10_later_file_error_refuted exhibits it. *)
 From Coq Require Import List ZArith Bool Lia.
 Import ListNotations.
-From LC Require Import Base Tree Fp Api ApiStep TreeFacts ApiFacts ScanAction FlexEngine Bisim Tokens Lexer LexFacts Parser Reader ScannerCert Splice.
+From LC Require Import Base Tree Fp Api ApiStep TreeFacts ApiFacts ScanAction FlexEngine Bisim Tokens Lexer LexFacts Parser Reader ScannerCert Splice SpliceRead SpliceNest.
 From LC.gen Require Import Consts ScannerTables.
 Local Open Scope Z_scope.
 
@@ -250,3 +256,58 @@ Example C10_splice_example :
    let '(toks2, stop2) := lex_top ex_atof ex_fs cfg_init None (ex_pre ++ ex_c ++ ex_post) in
    map lt_tok toks1 = map lt_tok toks2 /\ stop1 = stop2).
 Proof. split; [exact ex_c_plain|]. split; [exact ex_pre_plain|]. exact ex_splice. Qed.
+
+
+(* ------------------------------------------------------------------------------------------------------- *)
+(* (c) through the parser, and nested includes (SpliceRead.v, SpliceNest.v)                                 *)
+(* ------------------------------------------------------------------------------------------------------- *)
+
+(* two token streams with the same token values are answered alike by config_read: same outcome, same configuration up
+   to the recorded source positions (unpos resets s_line / s_file everywhere) *)
+Theorem C10_parser_position_irrelevant : forall atof FS c top text1 text2,
+  (let '(t1, p1) := lex_top atof FS (set_files (set_root (set_err c err0) new_root) []) top text1 in
+   let '(t2, p2) := lex_top atof FS (set_files (set_root (set_err c err0) new_root) []) top text2 in
+   map lt_tok t1 = map lt_tok t2 /\ p1 = p2) ->
+  rd_out_ (config_read atof FS c top text1) = rd_out_ (config_read atof FS c top text2) /\
+  unpos (c_root (rd_cfg (config_read atof FS c top text1))) = unpos (c_root (rd_cfg (config_read atof FS c top text2))).
+Proof. exact config_read_tokens. Qed.
+Print Assumptions C10_parser_position_irrelevant.
+
+(* reading a text with an include directive = reading the text with the file spliced in *)
+Theorem C10_splice_read : forall atof FS c top pre dir post content f,
+  plain atof pre -> plain atof content -> bytes_ok dir -> bytes_ok post -> (post = [] \/ exists post', post = 10 :: post') ->
+  directive atof FS (c_incdir c) (c_incfn c) MAX_INCLUDE_DEPTH (lstate0 top) (mkBuf (dir ++ post) true 1) [f] post ->
+  fs_lookup FS f = Some (FFile content) ->
+  let r1 := config_read atof FS c top (pre ++ dir ++ post) in
+  let r2 := config_read atof FS c top (pre ++ content ++ post) in
+  rd_out_ r1 = rd_out_ r2 /\ unpos (c_root (rd_cfg r1)) = unpos (c_root (rd_cfg r2)).
+Proof. exact splice_read. Qed.
+Print Assumptions C10_splice_read.
+
+(* include forests: text_of t is the top text with its directives, flat t the text with every file spliced in at its
+   directive, recursively; wf t says every directive is alone on its line and resolves to one existing file whose own text
+   is complete; idepth t is the nesting depth *)
+Theorem C10_flatten_tokens : forall atof FS c top t,
+  wf atof FS (c_incdir c) (c_incfn c) MAX_INCLUDE_DEPTH t -> (idepth t <= Z.to_nat MAX_INCLUDE_DEPTH)%nat ->
+  let '(toks1, stop1) := lex_top atof FS c top (text_of t) in
+  let '(toks2, stop2) := lex_top atof FS c top (flat t) in
+  map lt_tok toks1 = map lt_tok toks2 /\ stop1 = stop2.
+Proof. exact flatten_tokens. Qed.
+Print Assumptions C10_flatten_tokens.
+
+Theorem C10_flatten_read : forall atof FS c top t,
+  wf atof FS (c_incdir c) (c_incfn c) MAX_INCLUDE_DEPTH t -> (idepth t <= Z.to_nat MAX_INCLUDE_DEPTH)%nat ->
+  let r1 := config_read atof FS c top (text_of t) in
+  let r2 := config_read atof FS c top (flat t) in
+  rd_out_ r1 = rd_out_ r2 /\ unpos (c_root (rd_cfg r1)) = unpos (c_root (rd_cfg r2)).
+Proof. exact flatten_read. Qed.
+Print Assumptions C10_flatten_read.
+
+(* non-vacuity: a two-level forest (top includes f; f holds a multi-line string, a comment and an include of g) is
+   well-formed, and the theorem applies to it *)
+Example C10_flatten_example :
+  wf ex_atof n_fs (c_incdir cfg_init) (c_incfn cfg_init) MAX_INCLUDE_DEPTH n_top /\
+  (let r1 := config_read ex_atof n_fs cfg_init None (text_of n_top) in
+   let r2 := config_read ex_atof n_fs cfg_init None (flat n_top) in
+   rd_out_ r1 = rd_out_ r2 /\ unpos (c_root (rd_cfg r1)) = unpos (c_root (rd_cfg r2))).
+Proof. split; [exact n_top_wf | exact n_top_flatten]. Qed.
